@@ -2,26 +2,33 @@
 (* Every line comment / directive with a body of at most N code points over Alphabet.                            *)
 EXTENDS Comment, TLC, Json
 
-CONSTANTS Alphabet, N, Kind, TRIM_CONTROL     \* Kind: "line" | "doc" | "directive"
+CONSTANTS Alphabet, N, Kind, TRIM_CONTROL,    \* Kind: "line" | "doc" | "directive" | "pdirective" (the `(*$ .. *)` form)
+          Prefixes                             \* set of texts one of which starts the body (directive names such as ifdef)
 
-VARIABLES body, phase
-vars == <<body, phase>>
-Init == body = <<>> /\ phase = "gen"
-Extend == phase = "gen" /\ Len(body) < N /\ (\E c \in Alphabet : body' = Append(body, c)) /\ UNCHANGED phase
-Check == phase = "gen" /\ phase' = "done" /\ UNCHANGED body
+PrefixesNone == {<<>>}
+\* if, ifdef, ifndef, ifopt, elseif, else, endif, ifend, IfDef, region
+PrefixesCond == {<<105, 102>>, <<105, 102, 100, 101, 102>>, <<105, 102, 110, 100, 101, 102>>, <<105, 102, 111, 112, 116>>, <<101, 108, 115, 101, 105, 102>>, <<101, 108, 115, 101>>, <<101, 110, 100, 105, 102>>, <<105, 102, 101, 110, 100>>, <<73, 102, 68, 101, 102>>, <<114, 101, 103, 105, 111, 110>>}
+
+VARIABLES body, phase, plen
+vars == <<body, phase, plen>>
+Init == body \in Prefixes /\ phase = "gen" /\ plen = Len(body)
+Extend == phase = "gen" /\ Len(body) < plen + N /\ UNCHANGED plen /\ (\E c \in Alphabet : body' = Append(body, c)) /\ UNCHANGED phase
+Check == phase = "gen" /\ phase' = "done" /\ UNCHANGED <<body, plen>>
 Next == Extend \/ Check
 Spec == Init /\ [][Next]_vars
 
-Text == CASE Kind = "line" -> <<47, 47>> \o body [] Kind = "doc" -> <<47, 47, 47>> \o body [] OTHER -> <<123, 36>> \o body \o <<125>>
-Norm(t) == IF Kind = "directive" THEN DirectiveNorm(t) ELSE LineCommentNorm(t, TRIM_CONTROL)
+Text == CASE Kind = "line" -> <<47, 47>> \o body [] Kind = "doc" -> <<47, 47, 47>> \o body [] Kind = "pdirective" -> <<40, 42, 36>> \o body \o <<42, 41>>
+          [] OTHER -> <<123, 36>> \o body \o <<125>>
+IsDir == Kind \in {"directive", "pdirective"}
+Norm(t) == IF IsDir THEN DirectiveNorm(t) ELSE LineCommentNorm(t, TRIM_CONTROL)
 
 \* C01: the non-blank characters survive (up to the case of a directive name)
 NonBlankKept == phase = "done" => FoldSeq(NonBlank(Norm(Text))) = FoldSeq(NonBlank(Text))
-CaseOnlyInName == phase = "done" /\ Kind # "directive" => NonBlank(Norm(Text)) = NonBlank(Text)
+CaseOnlyInName == phase = "done" /\ ~IsDir => NonBlank(Norm(Text)) = NonBlank(Text)
 \* C03: normalising twice changes nothing more
 Fixpoint == phase = "done" => Norm(Norm(Text)) = Norm(Text)
 \* C08: a line comment never ends in ordinary blanks
-NoTrailingBlanks == phase = "done" /\ Kind # "directive" => LET t == Norm(Text) IN Len(t) = 0 \/ ~IsAsciiWs(t[Len(t)])
+NoTrailingBlanks == phase = "done" /\ ~IsDir => LET t == Norm(Text) IN Len(t) = 0 \/ ~IsAsciiWs(t[Len(t)])
 
 Emit == phase = "done" => PrintT(<<"REPLAY", ToJson([text |-> Text, norm |-> Norm(Text)])>>)
 =============================================================================
